@@ -71,12 +71,47 @@ class HHRun:
         self.stats = {"replace": 0, "shared": False, "queries": 0, "cache_hit": 0, "cache_miss": 0, "sat": 0}
         s = sk()
         kw = {} if case["phi"] is None else {"phi": case["phi"]}
-        self.hs = [s.HeavyHitters(self.width, self.depth, self.mkl, **kw) for _ in range(case["nsk"])]
+        # "handles" cases (about one in five, decided by the case itself so that a replay takes the same path): every sketch lives in shared memory
+        # and has a second handle attached to its block, the way parallel_add uses them; every WRITE goes through that handle, every READ (query,
+        # hh[key], dumps) through the owner — the owner must answer from the block, not from what it remembers of its own calls
+        self.handles = case.get("handles", (len(case["ops"]) + 3 * self.width + self.depth) % 5 == 0)
+        self.kw = kw
+        if self.handles:
+            hhmod = s.heavyhitters if hasattr(s, "heavyhitters") else __import__("sketchnu.heavyhitters", fromlist=["x"])
+            if getattr(hhmod.sleep, "__name__", "") == "sleep":
+                hhmod.sleep = lambda s_: None  # the 0.25 s pause in __del__ (test-side patch, this slice only; C16 keeps the original)
+            self.hs = [s.HeavyHitters(self.width, self.depth, self.mkl, shared_memory=True, **kw) for _ in range(case["nsk"])]
+            self.views = [self._view(o) for o in self.hs]
+        else:
+            self.hs = [s.HeavyHitters(self.width, self.depth, self.mkl, **kw) for _ in range(case["nsk"])]
+            self.views = None
         self.phi_bits = struct.unpack("<Q", struct.pack("<d", float(self.hs[0].phi)))[0]
         self.last_thr = [None] * case["nsk"]
         nk = lambda: {"true": {}, "load": [[0] * self.width for _ in range(self.depth)], "N": 0}
         self.truth = [nk() for _ in self.hs]
         self.model_cache = [(0, 0)] * case["nsk"]  # (n_added_sort, thr_sort) as the code keeps them
+
+    def _view(self, owner):
+        v = sk().HeavyHitters(self.width, self.depth, self.mkl, **self.kw)
+        v.attach_existing_shm(owner.shm.name)
+        return v
+
+    def w(self, i):
+        """the handle writes to sketch i go through"""
+        return self.views[i] if self.views is not None else self.hs[i]
+
+    def close(self):
+        if self.views is not None:
+            import gc
+            while self.views:
+                v = self.views.pop()
+                del v
+            self.views = None
+            gc.collect()
+            while self.hs:
+                o = self.hs.pop()
+                del o
+            gc.collect()
 
     def _kid(self, key):
         t = key[: self.mkl]
@@ -119,7 +154,7 @@ class HHRun:
     def _add(self, i, rawkey, v, via="add"):
         kid = self._kid(rawkey)
         if via == "add":
-            self.hs[i].add(rawkey, v)
+            self.w(i).add(rawkey, v)
         self._tadd(i, kid, v)
         self.ops.append([f"hh.add {i} {kid} {v}", None, "op"])
         return kid
@@ -139,7 +174,7 @@ class HHRun:
             elif k == "update_list":
                 _, i, kis = op
                 self.resolved.append(op)
-                self.hs[i].update([self.raw[j] for j in kis])
+                self.w(i).update([self.raw[j] for j in kis])
                 for j in kis:
                     self._add(i, self.raw[j], 1, via="none")
                 self.ops.append([f"hh.dump {i}", self.dump(i), "exact"])
@@ -151,7 +186,7 @@ class HHRun:
                         v = self._value(i, self._kid(self.raw[j]))
                     d[j] = v
                 self.resolved.append(["update_dict", i, [[j, v] for j, v in d.items()]])
-                self.hs[i].update({self.raw[j]: v for j, v in d.items()})
+                self.w(i).update({self.raw[j]: v for j, v in d.items()})
                 # NB: two raw keys with the same dict position order
                 for j, v in d.items():
                     self._add(i, self.raw[j], v, via="none")
@@ -159,7 +194,7 @@ class HHRun:
             elif k == "ngram":
                 _, i, ki, n = op
                 self.resolved.append(op)
-                self.hs[i].add_ngram(self.raw[ki], n)
+                self.w(i).add_ngram(self.raw[ki], n)
                 for w in windows(self.raw[ki], n):
                     self._add(i, w, 1, via="none")
                 self.ops.append([f"hh.dump {i}", self.dump(i), "exact"])
@@ -167,7 +202,7 @@ class HHRun:
                 _, a, b = op
                 self.resolved.append(op)
                 before_b = self.dump(b)
-                self.hs[a].merge(self.hs[b])
+                self.w(a).merge(self.w(b))
                 ta, tb = self.truth[a], self.truth[b]
                 for kid, v in tb["true"].items():
                     ta["true"][kid] = ta["true"].get(kid, 0) + v
@@ -185,7 +220,15 @@ class HHRun:
                 os.close(fd)
                 try:
                     self.hs[i].save(path)
-                    self.hs[i] = sk().HeavyHitters.load(path)
+                    if self.views is not None:
+                        self.views[i] = None
+                        self.hs[i] = None
+                        import gc
+                        gc.collect()
+                        self.hs[i] = sk().HeavyHitters.load(path, shared_memory=True)
+                        self.views[i] = self._view(self.hs[i])
+                    else:
+                        self.hs[i] = sk().HeavyHitters.load(path)
                 finally:
                     os.unlink(path)
                 if self.dump(i) != before:
@@ -218,10 +261,11 @@ class HHRun:
         else:
             tval = thr
         # cache path bookkeeping (for evidence)
-        if int(h.n_added_sort) < n_added or int(h.threshold_sort) != tval:
-            self.stats["cache_miss"] += 1
-        else:
-            self.stats["cache_hit"] += 1
+        try:  # evidence only: the attributes are internals and may not exist under a change
+            miss = int(h.n_added_sort) < n_added or int(h.threshold_sort) != tval
+        except Exception:
+            miss = True
+        self.stats["cache_miss" if miss else "cache_hit"] += 1
         self.stats["queries"] += 1
         ans = h.query(kk, thr) if kk is not None else h.query(None, thr)
         pairs = [(self.kid.get(kb, "?"), int(c)) for kb, c in ans]
@@ -305,6 +349,7 @@ class HHRun:
 
     def replay_case(self):
         c = dict(self.case)
+        c["handles"] = bool(self.handles)
         c["ops"] = self.resolved + self.case["ops"][len(self.resolved):]
         return c
 
@@ -376,7 +421,10 @@ def run_slice(res, rng, tier, pids, n_cases, budget_s, label="hh"):
         for k in ("queries", "cache_hit", "cache_miss"):
             res.count(k, run.stats[k])
         res.sample({"slice": label, "depth": run.depth, "width": run.width, "max_key_len": run.mkl, "keys": run.case["keys"][:4],
-                    "ops": run.resolved[:8]})
+                    "ops": run.resolved[:8], "handles": bool(run.handles)})
+        if run.handles:
+            res.count("cases_through_handles")
+        run.close()
     mism, ncmp = sess.run()
     res.mismatches += mism
     res.traces += n
